@@ -55,6 +55,20 @@ def wellSec : Option Str → List Elem → Bool
 
 def WellSectioned (els : List Elem) : Prop := wellSec none els = true
 
+/-- no STALE heading: every non-title element after the first title names the most recent title,
+or names no earlier title at all, or names nothing (`ts` = texts of the earlier titles, most recent
+first).  Weaker than `WellSectioned`. -/
+def noStale : List Str → List Elem → Bool
+  | _, [] => true
+  | ts, e :: rest =>
+    if e.isTitle then noStale (e.text :: ts) rest
+    else
+      (match ts, e.md.parentHeading with
+       | t :: older, some h => decide (h = t) || !older.contains h
+       | _, _ => true) && noStale ts rest
+
+def NoStale (els : List Elem) : Prop := noStale [] els = true
+
 /-- consecutive elements that can share a chunk (`canMergeElems`) have the same `parent_heading` -/
 def headingStable (cfg : Config) : List Elem → Bool
   | a :: b :: rest =>
